@@ -97,8 +97,13 @@ def run_nesting(ctx, rng, quick):
             rho = numqi.random.rand_density_matrix(dims[0] * dims[1], seed=rng.randrange(10**6))
             ev = []
             try:
+                N = dims[0] * dims[1]
+                gm_ops = numqi.gellmann.all_gellmann_matrix(N, with_I=False)
+                bv = numqi.gellmann.dm_to_gellmann_basis(rho)
+                bloch_dir = bv / np.linalg.norm(bv)
                 ev.append(dict(op='beta', cls='DM', k=0, value=units(E.get_density_matrix_boundary(rho)[1])))
                 ev.append(dict(op='beta', cls='PPT', k=0, value=units(E.get_ppt_boundary(rho, dims)[1])))
+                ev.append(dict(op='beta', cls='PPT', k=0, value=units(float(E.get_ppt_numerical_range(gm_ops, bloch_dir, dims, use_tqdm=False)) / 2)))
                 kmax = 3 if (quick or dims[0] * dims[1] > 6) else 4
                 for k in range(1, kmax + 1):
                     if dims[0] * dims[1] ** k > (60 if quick else 130):
@@ -108,6 +113,11 @@ def run_nesting(ctx, rng, quick):
                             continue
                         b = E.get_ABk_symmetric_extension_boundary(rho, dims, k, **kw)
                         ev.append(dict(op='beta', cls=cls, k=k, value=units(b)))
+                        if k >= 2 and t % 2 == 0:
+                            # the same boundary through the operator-space routine: with the full (traceless) Gell-Mann basis as operators
+                            # and the unit Bloch direction, Tr(rho G_i) = 2 a_i, hence beta_range = 2 beta (same class => equal within Tol)
+                            b2 = E.get_ABk_extension_numerical_range(gm_ops, bloch_dir, dims, k, use_tqdm=False, **kw)
+                            ev.append(dict(op='beta', cls=cls, k=k, value=units(float(b2) / 2)))
                 if not quick and dims == (2, 2):
                     model = E.CHABoundaryBagging(dims)
                     b = model.solve(rho, use_tqdm=False, seed=rng.randrange(10**6))
